@@ -494,7 +494,9 @@ func main() {
 				}
 				pk := dpk
 				msg := []byte("challenge corpus")
-				what := func() string { return fmt.Sprintf("challenge seed %s (reads %d XOF bytes) z-kind %d", e.Seed, e.Read, zk) }
+				what := func() string {
+					return fmt.Sprintf("challenge seed %s (reads %d XOF bytes) z-kind %d", e.Seed, e.Read, zk)
+				}
 				o := run(c, i, "dilithium.Verify", false, what, func() string { return fmt.Sprint(dilithium.Verify(msg, sig, &pk)) })
 				sm := append(append([]byte(nil), sig[:]...), msg...)
 				o2 := run(c, i, "dilithium.Open", false, what, func() string { return fmt.Sprint(dilithium.Open(sm, &pk) != nil) })
